@@ -33,6 +33,17 @@ def nowraps(f):
 ORIG = {}
 
 
+class DecoClass:
+    """A decorator CLASS: the name is bound to an instance (not a function) whose __wrapped__ is the function."""
+
+    def __init__(self, f):
+        functools.update_wrapper(self, f)
+        self.f = f
+
+    def __call__(self, *a, **k):
+        return self.f(*a, **k)
+
+
 def keep(label):
     def d(f):
         ORIG[label] = f
@@ -61,6 +72,25 @@ def wrapped(a):
 @deco2
 @keep("wrapped2")
 def wrapped2(a):
+    return a
+
+
+@functools.lru_cache(maxsize=None)
+@keep("lru")
+def lru(a):
+    return a
+
+
+@DecoClass
+@keep("dclass")
+def dclass(a):
+    return a
+
+
+@DecoClass
+@deco
+@keep("dclass_over_wraps")
+def dclass_over_wraps(a):
     return a
 
 
@@ -142,6 +172,28 @@ class K:
     def __call__(self, x):
         return x
 
+    @functools.lru_cache(maxsize=None)
+    @keep("K.lru_meth")
+    def lru_meth(self, x):
+        return x
+
+    @DecoClass
+    @keep("K.dc_meth")
+    def dc_meth(self, x):
+        return x
+
+    @staticmethod
+    @functools.lru_cache(maxsize=None)
+    @keep("K.lru_sm")
+    def lru_sm(x):
+        return x
+
+    @staticmethod
+    @DecoClass
+    @keep("K.dc_sm")
+    def dc_sm(x):
+        return x
+
     class Inner:
         def im(self, x):
             return x
@@ -165,6 +217,28 @@ class K:
 
 class Sub(K):
     pass
+
+
+# user classes that merely share the NAME of an entry of encoding._HIDDEN_BUILTIN_TYPES (sentinel classes);
+# only module "builtins" may be answered from that table
+class NoneType:
+    pass
+
+
+class NotImplementedType:
+    pass
+
+
+class mappingproxy:
+    pass
+
+
+class Outer:
+    class NoneType:                    # control: the qualname "Outer.NoneType" is not a key of the table
+        pass
+
+    class mappingproxy:
+        pass
 
 
 class Plain:
@@ -234,6 +308,8 @@ nowhere.__qualname__ = "K.no_such_attr"
 alias = mfunc
 
 
+SENTINELS = [NoneType, NotImplementedType, mappingproxy, Outer.NoneType, Outer.mappingproxy]
+
 FUNCS = {
     "mfunc": (mfunc, True, "module function"),
     "gen": (gen, True, "module function"),
@@ -241,6 +317,13 @@ FUNCS = {
     "alias": (alias, True, "module function"),
     "wrapped": (ORIG["wrapped"], True, "wraps"),
     "wrapped2": (ORIG["wrapped2"], True, "wraps"),
+    "lru": (ORIG["lru"], True, "wrapper object (lru_cache)"),
+    "dclass": (ORIG["dclass"], True, "wrapper object (decorator class)"),
+    "dclass_over_wraps": (ORIG["dclass_over_wraps"], True, "wrapper object (decorator class)"),
+    "K.lru_meth": (ORIG["K.lru_meth"], True, "wrapper object (lru_cache)"),
+    "K.dc_meth": (ORIG["K.dc_meth"], True, "wrapper object (decorator class)"),
+    "K.lru_sm": (ORIG["K.lru_sm"], True, "wrapper object (lru_cache)"),
+    "K.dc_sm": (ORIG["K.dc_sm"], True, "wrapper object (decorator class)"),
     "K.meth": (K.__dict__["meth"], True, "method"),
     "K.__call__": (K.__dict__["__call__"], True, "method"),
     "K.cm": (K.__dict__["cm"].__func__, True, "classmethod"),
@@ -270,6 +353,8 @@ FUNCS = {
 CLASSES = {
     "K": (K, True), "K.Inner": (K.Inner, True), "K.Inner.Deep": (K.Inner.Deep, True), "Sub": (Sub, True),
     "Plain": (Plain, True),
+    "NoneType": (NoneType, True), "NotImplementedType": (NotImplementedType, True), "mappingproxy": (mappingproxy, True),
+    "Outer.NoneType": (Outer.NoneType, True), "Outer.mappingproxy": (Outer.mappingproxy, True),
     "LocalCls": (LocalCls, False), "Rebound": (ReboundOrig, False), "Gone": (GoneOrig, False),
     "NotAType": (NotATypeOrig, False), "FarAway": (FarAway, False),
 }
